@@ -161,13 +161,16 @@ pub fn nonce_text(sel: u8, cookie: bool, algs_bit: bool, anon_bit: bool) -> Stri
 
 pub fn alg_list(sel: u8) -> Option<Vec<RAlg>> {
     let a = |id: u16| RAlg { id, params: vec![] };
-    match sel % 6 {
+    match sel % 8 {
         0 => None,
         1 => Some(vec![a(1), a(2)]),
         2 => Some(vec![a(2)]),
         3 => Some(vec![a(1)]),
         4 => Some(vec![a(7), RAlg { id: 0x99, params: vec![1, 2, 3] }]),
-        _ => Some(vec![a(2), a(1)]),
+        5 => Some(vec![a(2), a(1)]),
+        // supported algorithms mixed with unknown entries that carry parameters (must be echoed byte for byte)
+        6 => Some(vec![RAlg { id: 0x99, params: vec![1, 2, 3] }, a(2)]),
+        _ => Some(vec![a(1), RAlg { id: 0x1234, params: vec![0xAB] }, a(2), RAlg { id: 0, params: vec![9, 9] }]),
     }
 }
 
